@@ -593,6 +593,131 @@ def tmpl_close(rng):
     return "close:" + kind, src
 
 
+# ------------------------------------------------------------------------------------------------
+# value snapshot: a sent struct / array value is a copy — later writes of the sender must not show at the receiver
+# ------------------------------------------------------------------------------------------------
+
+# element types GopherJS represents by reference: (name, Go declaration, leaf paths)
+SNAP_TYPES = [
+    ("S", "struct {\n\ta, b int\n}", [".a", ".b"]),
+    ("A", "[3]int", ["[0]", "[1]", "[2]"]),
+    ("N", "struct {\n\tid int\n\tin struct{ x, y int }\n}", [".id", ".in.x", ".in.y"]),
+    ("SA", "struct {\n\tseq  int\n\tbody [2]int\n}", [".seq", ".body[0]", ".body[1]"]),
+    ("AS", "[2]struct{ p, q int }", ["[0].p", "[0].q", "[1].p", "[1].q"]),
+    ("NN", "struct {\n\thd SA0\n\ttl [2]S0\n}", [".hd.seq", ".hd.body[1]", ".tl[0].a", ".tl[1].b"]),
+]
+# send statement forms (ch = target channel, nc = nil channel of the same type, never = chan int nobody sends on)
+SNAP_SENDS = {
+    "plain": "\t%(i)sch <- m\n",
+    "select1": "\t%(i)sselect {\n\t%(i)scase ch <- m:\n\t%(i)s}\n",
+    "select-default": "\t%(i)sselect {\n\t%(i)scase ch <- m:\n\t%(i)sdefault:\n\t%(i)s\tprintln(\"default\")\n\t%(i)s}\n",
+    "select-nil-send-first": "\t%(i)sselect {\n\t%(i)scase nc <- m:\n\t%(i)s\tprintln(\"nil fired\")\n\t%(i)scase ch <- m:\n\t%(i)s}\n",
+    "select-recv-alt": "\t%(i)sselect {\n\t%(i)scase ch <- m:\n\t%(i)scase <-never:\n\t%(i)s\tprintln(\"never fired\")\n\t%(i)s}\n",
+    "select-two-sends-one-full": "\t%(i)sselect {\n\t%(i)scase full <- m:\n\t%(i)s\tprintln(\"full fired\")\n\t%(i)scase ch <- m:\n\t%(i)s}\n",
+}
+
+
+def snap_set(var, leaves, base, ind="\t"):
+    return "".join("%s%s%s = %d\n" % (ind, var, l, base + j) for j, l in enumerate(leaves))
+
+
+def snap_print(tag, var, leaves, ind="\t"):
+    return "%sprintln(%s)\n" % (ind, ", ".join(['"%s"' % tag] + [var + l for l in leaves]))
+
+
+def gen_snapshot_scenario(rng, idx, force=None):
+    """One deterministic scenario `func snapN()`. Returns (descr, source)."""
+    tname, _, leaves = rng.choice(SNAP_TYPES)
+    T = tname + "0"
+    form = rng.choice(list(SNAP_SENDS)) if force is None else force
+    kind = rng.choice(["reuse-buffered", "rendezvous-receiver-first", "rendezvous-sender-first", "full-buffer-blocked"])
+    if form == "plain" and rng.random() < 0.7:
+        form = rng.choice([f for f in SNAP_SENDS if f != "plain"])
+    decl = "\tvar nc chan %s\n\tnever := make(chan int)\n\tfull := make(chan %s, 1)\n\tfull <- %s{}\n\t_, _, _ = nc, never, full\n" % (T, T, T)
+    src = "func snap%d() {\n" % idx
+    if kind == "reuse-buffered":
+        n = rng.randrange(2, 6)
+        src += "\tch := make(chan %s, %d)\n%s\tvar m %s\n\tfor i := 0; i < %d; i++ {\n" % (T, n, decl, T, n)
+        src += "".join("\t\tm%s = 10*i + %d\n" % (l, j) for j, l in enumerate(leaves))
+        src += SNAP_SENDS[form] % {"i": "\t"}
+        src += "\t}\n" + snap_set("m", leaves, 900) + "\tclose(ch)\n\tfor v := range ch {\n" + snap_print("got", "v", leaves, "\t\t") + "\t}\n"
+    elif kind in ("rendezvous-receiver-first", "rendezvous-sender-first"):
+        cap = rng.choice([0, 0, 1])
+        src += "\tch := make(chan %s, %d)\n%s\tack := make(chan bool)\n\tafter := make(chan int)\n\tstarted := make(chan bool, 1)\n" % (T, cap, decl)
+        src += "\tgo func() {\n\t\tvar m %s\n" % T + snap_set("m", leaves, 1, "\t\t") + "\t\tstarted <- true\n"
+        src += SNAP_SENDS[form] % {"i": "\t"}
+        src += snap_set("m", leaves, 900, "\t\t") + "\t\t<-ack\n\t\tafter <- m%s\n\t}()\n" % leaves[0]
+        if kind == "rendezvous-sender-first":
+            src += "\t<-started\n\tfor i := 0; i < 3; i++ {\n\t\tyield()\n\t}\n"
+        src += "\tgot := <-ch\n\tack <- true\n\tsender := <-after\n" + snap_print("got", "got", leaves) + "\tprintln(\"sender\", sender)\n"
+    else:  # the buffer is full: the select-send blocks, the receiver takes the old value first
+        src += "\tch := make(chan %s, 1)\n%s\tdone := make(chan bool)\n\tvar old %s\n" % (T, decl, T)
+        src += snap_set("old", leaves, 500) + "\tch <- old\n" + snap_set("old", leaves, 700)
+        src += "\tgo func() {\n\t\tvar m %s\n" % T + snap_set("m", leaves, 1, "\t\t")
+        src += SNAP_SENDS[form] % {"i": "\t"}
+        src += snap_set("m", leaves, 900, "\t\t") + "\t\tdone <- true\n\t}()\n"
+        src += "\tfor i := 0; i < 3; i++ {\n\t\tyield()\n\t}\n\tfirst := <-ch\n\t<-done\n\tsecond := <-ch\n"
+        src += snap_print("first", "first", leaves) + snap_print("second", "second", leaves)
+    src += "}\n"
+    return "%s type=%s send=%s" % (kind, tname, form), src
+
+
+def snapshot_program(scens):
+    src = GO_HEAD
+    for tname, decl, _ in SNAP_TYPES:
+        src += "type %s0 %s\n\n" % (tname, decl)
+    # yield: let other goroutines run without the time package (a buffered round trip through a helper goroutine)
+    src += "func yield() {\n\tc := make(chan bool)\n\tgo func() { c <- true }()\n\t<-c\n}\n\n"
+    for _, body in scens:
+        src += body + "\n"
+    src += "func main() {\n" + "".join("\tprintln(\"==\", %d)\n\tsnap%d()\n" % (i, i) for i in range(len(scens))) + "}\n"
+    return src
+
+
+def split_sections(trace):
+    secs, cur = {}, None
+    for l in trace:
+        if l.startswith("== "):
+            cur = int(l[3:])
+            secs[cur] = []
+        elif cur is not None:
+            secs[cur].append(l)
+    return secs
+
+
+SEND_CALL = None
+
+
+def send_sites(js, fn_prefix="snap"):
+    """Structure tie over the emitted JavaScript of a snapshot program (all its channels carry struct/array elements):
+    the value operand of every `$send(ch, v)` call and of every send case `[ch, v]` in a `$select([...])` literal.
+    Returns list of (kind, value text)."""
+    import re
+    sites = []
+    for m in re.finditer(r"\$send\((\w+), ", js):
+        if m.group(1) in ("chan", "c"):      # the prelude's own definitions / yield()'s chan bool
+            continue
+        sites.append(("send", js[m.end():m.end() + 40]))
+    for m in re.finditer(r"\$select\(\[", js):
+        depth, i = 1, m.end()
+        start = i
+        while depth > 0 and i < len(js):
+            ch = js[i]
+            if ch == "[":
+                if depth == 1:
+                    start = i
+                depth += 1
+            elif ch == "]":
+                depth -= 1
+                if depth == 1:
+                    inner = js[start + 1:i]
+                    if "," in inner:                       # [chan, value] = a send case
+                        sites.append(("select", inner.split(",", 1)[1].strip()[:40]))
+            i += 1
+    return sites
+
+
+
 DEFECT_SELECT_SEND = GO_HEAD + """func main() {
 	c := make(chan int)
 	d := make(chan int)
@@ -685,6 +810,15 @@ def run_programs(chk, tier, rng):
     det += abns
     for i, (name, src) in enumerate(det):
         jobs.append({"id": "d%d" % i, "files": {"main.go": src}, "variants": ["plain"], "native": True, "timeout": 20})
+    # (b2) value-snapshot scenarios: struct / array elements sent through select cases, the sender writes afterwards
+    snaps = []
+    n_snap_prog, per = (8, 12) if thorough else (1, 14)
+    forms = list(SNAP_SENDS)
+    for pi in range(n_snap_prog):
+        scens = [gen_snapshot_scenario(rng, i, force=forms[i % len(forms)] if i < len(forms) else None) for i in range(per)]
+        snaps.append(scens)
+        jobs.append({"id": "snap%d" % pi, "files": {"main.go": snapshot_program(scens)}, "variants": ["plain"], "native": True,
+                     "timeout": 20, "keep_js": True})
     # (c) the recorded defects as programs, (d) a nondeterministic select
     # (fixed programs: their native Go output is a constant, re-validated against the Go toolchain in the thorough tier)
     jobs.append({"id": "defect1", "files": {"main.go": DEFECT_SELECT_SEND}, "variants": ["plain"], "native": thorough})
@@ -729,6 +863,36 @@ def run_programs(chk, tier, rng):
                 chk.add_case("prog-det", op + part, kindkey="prog:" + part + ":" + nat[1].split(" ")[0][:40])
             if js != nat:
                 chk.add_mismatch("prog-det", op, "%s / %s" % js, "%s / %s" % nat, signature="C03 program %s impl=%s go=%s" % (name, js[1], nat[1]))
+    # value snapshot: per scenario GopherJS vs Go; structure tie over the emitted JS
+    nsites = 0
+    for pi, scens in enumerate(snaps):
+        runs = res["snap%d" % pi]["runs"]
+        src = snapshot_program(scens)
+        nat = progs.observe_native(runs["native"])
+        js = progs.observe_js(runs["plain"])
+        if nat[1] != "exit0":
+            raise RuntimeError("snapshot program fails natively: %s\n%s" % (nat, src))
+        sn, sj = split_sections(nat[0]), split_sections(js[0])
+        for i, (descr, body) in enumerate(scens):
+            op = "prog:snapshot:%s\n%s" % (descr, body)
+            chk.add_case("prog-snapshot", op, kindkey="prog:snapshot:" + descr.split(" ")[0] + ":" + descr.split("send=")[1])
+            if sj.get(i) != sn.get(i):
+                chk.add_mismatch("prog-snapshot", op + "\n(full program: scenario %d of snap%d)" % (i, pi),
+                                 "%s / %s" % (sj.get(i), js[1]), "%s / exit0" % (sn.get(i),),
+                                 signature="C03 program value-snapshot %s receiver-sees-later-sender-writes-or-differs" % descr)
+        if norm_end(js[1]) != "exit0" and all(sj.get(i) == sn.get(i) for i in range(len(scens))):
+            chk.add_mismatch("prog-snapshot", "prog:snapshot:ending\n" + src, "%s" % (js[1],), "exit0",
+                             signature="C03 program value-snapshot ending impl=%s" % js[1])
+        # I-tie: every struct/array value handed to $send / to a $select send case is a fresh copy
+        for kind_, val in send_sites(runs["plain"].get("js", "")):
+            nsites += 1
+            chk.add_case("compiled-send-clone", "snap%d:%s:%s" % (pi, kind_, val), kindkey="compiled:send-site:" + kind_)
+            if not val.startswith("$clone("):
+                chk.add_tie_break("compiled-send-clone", "snap%d %s operand `%s`\n%s" % (pi, kind_, val, src),
+                                  "not cloned", "$clone(value, type)")
+    chk.extra["compiled_send_sites_checked"] = nsites
+    if snaps and nsites == 0:
+        raise RuntimeError("structure tie found no $send/$select send site in the emitted JavaScript")
     # the two defects repaired in round 2, as regression programs: GopherJS must now equal Go
     for pid, sig, src in (("defect1", SIG_SELECT_SEND, DEFECT_SELECT_SEND), ("defect2", SIG_CLOSE_NIL, DEFECT_CLOSE_NIL)):
         js = progs.observe_js(res[pid]["runs"]["plain"])
